@@ -28,7 +28,11 @@ Section Snap.
     | KStr s => 2 :: tok_str s
     end.
   Definition tok_bagkey (k : bagkey N) : list Z :=
-    match k with BNum x => 0 :: ntok x | BNan => [1] | BStr s => 2 :: tok_str s end.
+    match k with
+    | BNum x => 0 :: ntok x | BNan => [1] | BStr s => 2 :: tok_str s
+    | BVec l => 3 :: Z.of_nat (List.length l)
+                :: List.concat (map (fun c => match c with Some x => 0 :: ntok x | None => [1] end) l)
+    end.
   Definition tok_list (l : list T) : list Z :=
     Z.of_nat (List.length l) :: List.concat (map ntok l).
 
@@ -41,7 +45,7 @@ Section Snap.
     | LMin => [104] ++ tok_optstr (qname q) ++ ntok (le s) ++ ntok (l1 s)
     | LMax => [105] ++ tok_optstr (qname q) ++ ntok (le s) ++ ntok (l1 s)
     | LBag r =>
-        [106; match r with RS => 0 | RN => 1 end] ++ tok_optstr (qname q) ++ ntok (le s)
+        [106; match r with RS => 0 | RN => 1 | RV n => 2 + Z.of_nat n end] ++ tok_optstr (qname q) ++ ntok (le s)
         ++ [Z.of_nat (List.length (lv s))]
         ++ List.concat (map (fun kc => tok_bagkey (fst kc) ++ ntok (snd kc)) (lv s))
     end.
